@@ -98,6 +98,11 @@ theorem iter_moved (c : Cfg K V) (s : St K V) (lo hi : Option K) (asc : Bool) :
   rw [iter_eq_foldl]
   exact iter_foldl_moved c _ (s, [])
 
+theorem iterAll_moved (c : Cfg K V) (s : St K V) (lo hi : Option K) (asc : Bool) :
+    GasMoved s (s.iterAll c lo hi asc).1 := by
+  rw [iterAll_eq_foldl]
+  exact iter_foldl_moved c _ (s, [])
+
 /-- what every operation available to a `Prog` preserves: tree, meteredness, gas limit, whether a
     session is open and, while one is open, the block cache -/
 structure Pres (s s' : St K V) : Prop where
@@ -176,6 +181,9 @@ theorem run_pres (cfg : Cfg K V) (p : Prog K V C E α) :
   | iter lo hi asc κ ih =>
     intro s m e; simp only [Prog.run]
     exact (iter_moved cfg s lo hi asc).pres.trans (ih _ _ _ _)
+  | iterAll lo hi asc κ ih =>
+    intro s m e; simp only [Prog.run]
+    exact (iterAll_moved cfg s lo hi asc).pres.trans (ih _ _ _ _)
   | getv ver k κ ih => intro s m e; simp only [Prog.run]; exact ih _ _ _ _
   | gas κ ih => intro s m e; simp only [Prog.run]; exact ih _ _ _ _
   | burn a κ ih =>
@@ -196,6 +204,8 @@ theorem run_noVset (cfg : Cfg K V) (p : Prog K V C E α) :
   | set k v κ ih => intro s m e h; simp only [Prog.NoVset] at h; simp only [Prog.run]; exact ih _ _ _ _ (h _)
   | del k κ ih => intro s m e h; simp only [Prog.NoVset] at h; simp only [Prog.run]; exact ih _ _ _ h
   | iter lo hi asc κ ih =>
+    intro s m e h; simp only [Prog.NoVset] at h; simp only [Prog.run]; exact ih _ _ _ _ (h _)
+  | iterAll lo hi asc κ ih =>
     intro s m e h; simp only [Prog.NoVset] at h; simp only [Prog.run]; exact ih _ _ _ _ (h _)
   | getv ver k κ ih => intro s m e h; simp only [Prog.NoVset] at h; simp only [Prog.run]; exact ih _ _ _ _ (h _)
   | gas κ ih => intro s m e h; simp only [Prog.NoVset] at h; simp only [Prog.run]; exact ih _ _ _ _ (h _)
